@@ -190,6 +190,15 @@ DefZero ::= SEQUENCE { retries INTEGER (0..255) DEFAULT 0, flag BOOLEAN DEFAULT 
 DefInner ::= SEQUENCE { n INTEGER (0..255) DEFAULT 7, s UTF8String DEFAULT "d", b BOOLEAN DEFAULT TRUE }
 DefCh ::= CHOICE { d DefInner, i INTEGER (0..255) }
 DefNest ::= SEQUENCE { items SEQUENCE OF DefInner, c DefCh, o DefInner OPTIONAL }
+XInts ::= SEQUENCE {
+  a INTEGER (-5..5,...), at INTEGER (-5..5), b INTEGER (0..255,...), bt INTEGER (0..255), c INTEGER (-128..127,...),
+  d INTEGER (0..4294967295,...), dt INTEGER (0..4294967295),
+  e INTEGER (-2147483648..2147483647,...), et INTEGER (-2147483648..2147483647),
+  f INTEGER (MIN..-1,...), g INTEGER (0..MAX,...), h INTEGER (5..MAX,...), i INTEGER (5..100000000000,...),
+  j INTEGER (-100000000000..5,...), oa INTEGER (-5..5,...) OPTIONAL, ob INTEGER (0..255,...) OPTIONAL
+}
+XList ::= SEQUENCE { l SEQUENCE OF INTEGER (-5..5,...), u SEQUENCE OF INTEGER (0..255,...) }
+XCh ::= CHOICE { s INTEGER (-5..5,...), u INTEGER (0..255,...), t INTEGER (0..255) }
 END"#
     );
 
@@ -393,6 +402,9 @@ END";
     zv_struct!(DefInner { n, s, b });
     zv_choice!(DefCh { D = 0, I = 1 });
     zv_struct!(DefNest { items, c, o });
+    zv_struct!(XInts { a, at, b, bt, c, d, dt, e, et, f, g, h, i, j, oa, ob });
+    zv_struct!(XList { l, u });
+    zv_choice!(XCh { S = 0, U = 1, T = 2 });
     zv_struct!(Nested { ll, x });
     zv_choice!(ChList { L = 0, I = 1 });
 
@@ -519,6 +531,9 @@ END";
                 29 => $f::<DefInner>($($arg),*),
                 30 => $f::<DefCh>($($arg),*),
                 31 => $f::<DefNest>($($arg),*),
+                32 => $f::<XInts>($($arg),*),
+                33 => $f::<XList>($($arg),*),
+                34 => $f::<XCh>($($arg),*),
                 _ => vec![-1],
             }
         };
